@@ -249,3 +249,6 @@ REGISTRY["C14"]["kernel_groups"].append("Tables")
 for _p in ("C11", "C06", "C03", "C02"):
     REGISTRY[_p]["theorems"] += T("Proofs.Bridge.Tables", "BLDFM.Bridge", ["table_solverPlumbing"], "bridge")
     REGISTRY[_p]["kernel_groups"].append("Tables")
+for _p in ("C08", "C17"):
+    REGISTRY[_p]["theorems"] += T("Proofs.Bridge.Tables", "BLDFM.Bridge", ["tower_local_xy_table"], "bridge")
+    REGISTRY[_p]["kernel_groups"].append("Tables")
